@@ -1829,9 +1829,13 @@ fn overflow_history(ctx: &Ctx, bucket: u8, prefill: usize) -> Result<(), String>
             im.add_entry(&ek, 900 + (added % 100) as u16, (added as u32) * 64, 64).map_err(|e| format!("prefill add_entry: {e}"))?;
             added += 1;
         }
+        if prefill > 20_000 {
+            // the large pre-fills are about the sorted section: merge everything into it
+            im.flush_updates_for_bucket(bucket).map_err(|e| format!("prefill flush: {e}"))?;
+        }
         im.save_all().map_err(|e| format!("prefill save_all: {e}"))?;
     }
-    h.log(format!("prefilled bucket {bucket:#x} with {prefill} un-flushed entries"));
+    h.log(format!("prefilled bucket {bucket:#x} with {prefill} {} entries", if prefill > 20_000 { "flushed (sorted-section)" } else { "un-flushed" }));
     let bundle = open_dynamic(&rt, &root, 0, 4)?;
     let mut m = Model::default();
     // payloads whose derived encoding key falls into the bucket
@@ -2015,7 +2019,11 @@ fn main() {
     judge_run(&ctx, r, PROBE_ID, "dynamic");
 
     // full update section, then container writes into that bucket (1259 / 1260 / 1258 pre-filled entries)
-    for (bucket, prefill) in [(3u8, 1259usize), (12, 1260), (7, 1258)] {
+    // and a bucket whose SORTED section ends next to / exactly on a 64 KiB boundary of the .idx file (documented layout:
+    // 0x28-byte header area + 18-byte records, update section at the next 64 KiB boundary): 25 483 / 25 484 / 25 485
+    // flushed records, then container writes into that bucket, reopen, read
+    let n0 = (1usize..).find(|n| (0x28 + 18 * n) % 65536 == 0).unwrap_or(25_484);
+    for (bucket, prefill) in [(3u8, 1259usize), (12, 1260), (7, 1258), (5, n0 - 1), (9, n0), (14, n0 + 1)] {
         let r = std::panic::catch_unwind(std::panic::AssertUnwindSafe(|| overflow_history(&ctx, bucket, prefill)));
         judge_run(&ctx, r, PROBE_ID, "dynamic");
     }
